@@ -1,0 +1,30 @@
+//go:build verif
+
+// Abstract set view of *Bitmap used by the contracts of package pilosa (C07,
+// C10, C12, C15): $set is the set of uint64 the bitmap holds.  These contracts
+// are trusted here; the container- and collection-level parts they rest on are
+// verified under C01 / C02.  Comment-only file (build tag verif).
+
+package roaring
+
+//@ ghost Bitmap.$set set[uint64]
+//@ uf cardRange(s set[uint64], lo int, hi int) int
+
+//@ contract (*Bitmap).Add trusted props C07,C10,C12,C13,C28
+//@   requires b != nil && len(a) == 1
+//@   modifies b.$set, b.ops, b.opN
+//@   ensures err == nil ==> b.$set[a[0]] && (changed <==> !old(b.$set[a[0]]))
+//@   ensures err == nil ==> (forall x :: x != a[0] ==> (b.$set[x] <==> old(b.$set[x])))
+//@   ensures err != nil ==> !changed && (forall x :: b.$set[x] <==> old(b.$set[x]))
+//@ contract (*Bitmap).Remove trusted props C07,C10,C12,C13,C28
+//@   requires b != nil && len(a) == 1
+//@   modifies b.$set, b.ops, b.opN
+//@   ensures err == nil ==> !b.$set[a[0]] && (changed <==> old(b.$set[a[0]]))
+//@   ensures err == nil ==> (forall x :: x != a[0] ==> (b.$set[x] <==> old(b.$set[x])))
+//@   ensures err != nil ==> !changed && (forall x :: b.$set[x] <==> old(b.$set[x]))
+//@ contract (*Bitmap).CountRange trusted pure props C07,C10,C12,C13,C28
+//@   requires b != nil
+//@   ensures n == cardRange(b.$set, start, end)
+//@ contract (*Bitmap).Contains trusted pure props C07,C10,C12,C13,C28
+//@   requires b != nil
+//@   ensures result <==> b.$set[v]
